@@ -15,3 +15,13 @@ class Driver(ChanDriver):
             'channel/connection closes, silence) delivered one batch per '
             'sleep.  Non-trivial = at least 3 steps and some step raised or '
             'wrote frames.')
+
+    def corpus(self):
+        F = lambda n, num=0, s=b'': (n, num, s)
+        return [
+            # close() gives up after its time-out; the broker's own Channel.Close for the channel
+            # crosses it and must still get its CloseOk
+            (2, [(1, ('close',), []),
+                 (1, ('idle',), [[(1, F('NChClose', 404))]]),
+                 (2, ('rpc', 0), [[(2, F('NDeclareOk', 1))]])]),
+        ]
